@@ -1,11 +1,11 @@
 SPECIFICATION Spec
 CONSTANTS
-  MaxLen = 4
+  MaxLen = 3
   MaxNew = 2
   MaxViews = 2
   InitLens = {0, 3}
-  ThLen = 4
-  ThIdx = 6
+  ThLen = 3
+  ThIdx = 5
 VIEW StateView
 INVARIANT Distinct
 INVARIANT ExtentOK
